@@ -962,6 +962,17 @@ pub fn image_of<T: MaybeDynSized + ?Sized>(t: &T) -> Result<Vec<u8>, String> {
     .map_err(panic_text)
 }
 
+/// Address and length of the `as_bytes()` view (no bytes are read).
+pub fn view_of<T: MaybeDynSized + ?Sized>(t: &T) -> Result<(usize, usize), String> {
+    let _off = ScopeOff::new();
+    catch_unwind(AssertUnwindSafe(|| {
+        let b = t.as_bytes();
+        let s: &[u8] = &b;
+        (s.as_ptr() as usize, s.len())
+    }))
+    .map_err(panic_text)
+}
+
 pub fn addr_of<T: ?Sized>(t: &T) -> usize {
     t as *const T as *const u8 as usize
 }
